@@ -527,11 +527,21 @@ Theorem refused_changes_nothing st env sender m :
   auth_step st env sender m = Err -> apply_auth st (env, sender, m) = st.
 Proof. intros H. unfold apply_auth. rewrite H. reflexivity. Qed.
 
-Theorem instantiate_requires_contract_sender t answers : inst_allowed t false answers = false.
+Theorem instantiate_requires_contract_sender t p : ip_sender_is_contract p = false -> inst_allowed t p = false.
+Proof. intros H. destruct t; cbn [inst_allowed]; rewrite H; reflexivity. Qed.
+
+Theorem minter_instantiate_requires_factory p : ip_sender_answers_params p = false -> inst_allowed IMinter p = false.
+Proof. intros H. cbn [inst_allowed]. rewrite H. apply andb_false_r. Qed.
+
+(* the address named in the message plays no part: same sender, same answer *)
+Theorem instantiate_ignores_named_party t sc ap n1 n2 :
+  inst_allowed t (mkIP sc ap n1) = inst_allowed t (mkIP sc ap n2).
 Proof. destruct t; reflexivity. Qed.
 
-Theorem minter_instantiate_requires_factory is_contract : inst_allowed IMinter is_contract false = false.
-Proof. destruct is_contract; reflexivity. Qed.
+(* in particular a user account naming an existing contract (a live minter, a factory,
+   anything) as the minter is refused *)
+Theorem user_naming_a_contract_refused t ap : inst_allowed t (mkIP false ap true) = false.
+Proof. destruct t; reflexivity. Qed.
 
 
 Lemma ownership_eq_dec (a b : ownership) : {a = b} + {a <> b}.
